@@ -126,7 +126,13 @@ impl ProgressBar {
 
     /// A convenience builder-like function for a progress bar with a given position
     pub fn with_position(self, pos: u64) -> Self {
-        self.state().state.set_pos(pos);
+        {
+            let mut state = self.state();
+            state.state.set_pos(pos);
+            // The bar starts out at this position: getting there is not progress as far as the
+            // rate estimate is concerned.
+            state.reset(Instant::now(), Reset::Eta);
+        }
         self
     }
 
